@@ -592,6 +592,8 @@ func laws() []law {
 		{name: "delpaths-getpath-null", a: `all(paths as $p | delpaths([$p]) | getpath($p) == null or ($p[-1] | type) == "number"; .)`, in: func(v any) bool { return noNaN(v) }},
 		{name: "delpaths-all", a: `delpaths([paths]) == (if type == "array" then [] elif type == "object" then {} else . end)`, in: func(v any) bool { return noNaN(v) }},
 		{name: "getpath-is-path-expression", a: `all(paths as $p | getpath($p) == (reduce $p[] as $k (.; .[$k])); .)`, in: func(v any) bool { return noNaN(v) }},
+		{name: "getpath-is-index-fold", a: `try [getpath($x)] catch "E"`, b: `try [reduce $x[] as $k (.; if type == "string" then error else .[$k] end)] catch "E"`, in: func(v any) bool { return noNaN(v) }, x: func(_, x any) bool { return isArr(x) && noNaN(x) },
+			judges: []string{"getpath"}},
 		{name: "slice-get-is-slice-syntax", a: `getpath([$x]) == .[$x.start:$x.end]`, in: func(v any) bool { return (isArr(v) || v == nil) && noNaN(v) }, x: sliceObj, judges: []string{"getpath", "_index", "_slice"}},
 		{name: "slice-set-get-identity", a: `setpath([$x]; getpath([$x])) == .`, in: arrIn, x: sliceObj, judges: []string{"setpath", "getpath"}},
 		{name: "slice-del-length", a: `(delpaths([[$x]]) | length) == length - (getpath([$x]) | length)`, in: arrIn, x: sliceObj, judges: []string{"delpaths", "getpath"}},
@@ -809,6 +811,8 @@ func lawsOracle(ctx *common.Ctx, o *common.Oracle, cl []*claw) {
 	}
 	xs = append(xs, sliceObjects()...)
 	xs = append(xs, 9223372036854775808.0, -9223372036854775808.0, 9223372036854777856.0, 4611686018427387904.0, 1e19, -1e19, math.Inf(1), math.Inf(-1))
+	// paths with ill-typed elements at the start, in the middle and at the end (also below null / missing values)
+	xs = append(xs, []any{true}, []any{"a", true}, []any{0, "a"}, []any{nil}, []any{"a"}, []any{0}, []any{"a", 0, "b"}, []any{"a", []any{1}}, []any{"zz", 1.5, false}, []any{0, map[string]any{"a": 1}}, []any{map[string]any{"start": 0, "end": 1}, true})
 	xs = append(xs, 4, -3, -0.5, map[string]any{"a": map[string]any{"b": 2, "c": 3}}, map[string]any{"a": map[string]any{"b": 9}, "d": 1}, map[string]any{"b": 1, "a": "x"}, []any{1, 2}, []any{2, 1}, []any{"a"}, []any{nil})
 	distinct := 0
 	for _, l := range cl {
